@@ -93,4 +93,22 @@ META = {
         "text": "Per key and incarnation no two instances execute at once; when a call returns every instance the machine says it removed/superseded/left without context has a cancelled context; instances enter the routine exactly when the machine starts them (start, restart, reset, back-off retry at exactly t+b), a retry that is due but never happens is reported, nothing runs for a removed key, back-off NextBackOff/Reset counts match.",
         "note": "Overlap between a removed key's old routine and the routine of a re-added key is not asserted (new incarnation). Pending delayed removal across ResetRoutine follows the code.",
     },
+    "C08": {
+        "engine": _E1, "design_ref": "DESIGN.md §4 C08",
+        "technique": "model-based stateful PBT with generated schedule; reference machine (Appendix A.4) advanced in mutex-section grant order; oracles run inside each release function and at synctest quiescence",
+        "text": "Scripted resolver calls (blocked until a generated Finish with value/error, with or without release func), AddRef/Release/SetContext/released() interleaved section by section. Each release function checks on the spot: first invocation, the machine already considers the value gone, the target container no longer holds it, every live reference was last told it is gone. At quiescence every value the machine says is gone has been released exactly once; at the end of the case (all references dropped, context cleared) every value with a release function has been released exactly once.",
+        "note": "released() is not called re-entrantly from inside a reference callback (TryLock failure path only under the race programs).",
+    },
+    "C09": {
+        "engine": _E1, "design_ref": "DESIGN.md §4 C09",
+        "technique": "model-based stateful PBT with generated schedule; exact per-reference callback sequences, container contents and resolver-call overlap checked against the reference machine",
+        "text": "Resolver calls are bound to the machine's call tokens at the refcount.resolve hook; the resolver may never be entered while another call is executing nor by a goroutine the machine did not start; at quiescence target/targetErr equal the machine, every recording reference received exactly the machine's callback sequence (including references added after resolution), a wanted resolution is under way, superseded calls see a cancelled context. Panics of API calls are violations; a mutex left locked is reported through the hang watchdog and confirmed in a fresh process.",
+        "note": "Bounded histories (<= 60 ops).",
+    },
+    "C10": {
+        "engine": _E1, "design_ref": "DESIGN.md §4 C10",
+        "technique": "model-based stateful PBT with generated schedule over Wait/Resolve/ResolveWithReleased/Access consumers with scripted callbacks",
+        "text": "Consumers run as goroutines with their own contexts; Access callbacks block until a generated FinishAccessCb. Checked: returned values were delivered to the consumer's reference and are not released while held unless invalidated; released callbacks fire exactly once iff the machine invalidated after delivery; Access callbacks get delivered values, their context is cancelled by the next quiescence once the machine invalidates the value, Access re-invokes after invalidation and returns a callback result only if no event reached its reference between its look and its check; errors come from the resolver or the caller's cancellation; nobody stays blocked at quiescence when the machine says they can proceed.",
+        "note": "The 'between look and check' test uses the event count of the consumer's reference sampled at the grants of Access's private Broadcast sections.",
+    },
 }
